@@ -500,12 +500,14 @@ def c14(ctx):
     run_harness_on(ctx, "h_kdf.c", builds, ["--mode", "pbkdf2", "--p1", D, "--p3", NR], 16, timeout=3000)
     if ctx.thorough:
         run_harness_on(ctx, "h_kdf.c", builds[:1], ["--mode", "pbkdf2huge"], 1, timeout=3000, hname="h_kdf-huge")
+    run_special(ctx, "h_kdf.c", build_set(ctx, ["prod", "gcc-O2", "clang-O2"]), ["--mode", "special"], 4, "h_kdf-sp")
     abi.ilp32_monitor(ctx, ['pbkdf2'])
     ctx.rule = ("every outlen 0..D with password lengths {0,1,63,64,65,100,200}, salt lengths 0..40 and counts {0,1,2,3,4,5,10} rotating; "
                 "outputs 8165, 8200, 20000, 8192, 8223 bytes (block index > 255); counts {100,1000,4096} with short outputs; random parameter sets; "
                 "output buffer sized exactly and abutting a guard page (or canaries); relational: count 0 == count 1, shorter output is a prefix; thorough: one call producing 2^24+2 blocks (512 MiB), 14 sampled blocks against the model. "
                 "class = (outlen, pwlen, saltlen, count). Oracle: RFC 8018 model over the model HMAC.")
     ctx.rule += ' Supplementary ILP32 monitor: the portable sources compiled with gcc/clang -m32 (4-byte size_t, pointers and long; freestanding runtime, every buffer against a PROT_NONE page) and the production archive run the same deterministic case list (harness/h_abi.c, section pbkdf2) as the model; the outputs are compared line by line.'
+    ctx.rule += ' Corpus replay: (password, salt) pairs for which, at iteration j of block 1, a word of the accumulator equals the same word of U_j or a word of U_j is 0 / ffffffff (model/pinned/special.txt, found with the model alone), counts j-1, j, j+1, 2j.'
     ctx.exhaustive = False
 
 
@@ -1099,6 +1101,8 @@ def c06(ctx):
     p = ctx.prod()
     exe = ctx.harness("h_mem-prod-vg", "h_mem.c", {"static": p["static"]}, cc="gcc", with_model=False, defs=["VERIF_VALGRIND"])
     run_valgrind(ctx, valgrind_jobs(ctx, exe, "prod-cmake-Release+memcheck", ["--mode", "all", "--p1", ctx.q(5, 24), "--p3", ctx.q(0, 7)], 16))
+    # every entry point with 1 MiB inputs on a 128 KiB thread stack (a stack need that grows with an input length overflows it)
+    run_harness_on(ctx, "h_stack.c", build_set(ctx, ["prod", "gcc-O0"]), [], 16, hname="h_stack", timeout=1800)
     abi.ilp32_monitor(ctx, ['aead', 'siv', 'hash', 'hmac', 'hkdf', 'pbkdf2', 'prng', 'clean'], memcheck=True)
     ctx.rule = ("contract workload over the whole public API: 6 AEAD/SIV variants x (adlen, mlen) in [0..W]^2 (separate / encrypt-in-place / decrypt-in-place, "
                 "accepted and rejected packets), tinyjambu_hash 0..300 (quick 120), incremental hash with chunk schedules, HMAC key lengths 0..200 x 9 message "
@@ -1110,6 +1114,7 @@ def c06(ctx):
                 "objects, ASan+UBSan (gcc, clang), MSan with definedness assertions on every output, memcheck on the production objects. "
                 "class = (api, length tuple, placement rotation).")
     ctx.rule += ' Supplementary ILP32 monitor: the portable sources compiled -m32 (4-byte size_t/pointers; freestanding runtime) run all eight sections of harness/h_abi.c with every buffer abutting a PROT_NONE page (a fault ends the output early and is reported with the case), and again under valgrind memcheck for x86 (definedness of every branch and address).'
+    ctx.rule += ' Small-stack monitor: each of 16 entry-point groups with 1 MiB and with 16-byte inputs on a 128 KiB thread stack in a forked child (production and -O0 objects); a child killed by a signal is a violation; the stack bytes dirtied per call are recorded.'
     ctx.exhaustive = False
     ctx.assumptions += ["UBSan nonnull-attribute (and clang pointer-overflow for NULL+0) are disabled: memcpy/explicit_bzero(NULL, .., 0) on permitted NULL/0 arguments touches no byte and is outside the property",
                         "red-zone tools cannot see intra-object overflows inside the library's private structs", "lengths >= 2^32 are run only for AEAD/SIV (C01/C02 thorough), not for hash/KDF/PRNG"]
